@@ -2,17 +2,21 @@
    Only the property theorems; each is closed by `exact`.
 
    Model: BHS.Merkle - tip_height (sqlTipOfChainHeight), verify_hash (sqlVerifyHash, first row), verify1
-          (getMerkleRootConfirmation + dto.ToMerkleRootConfirmation with the int32 subtraction and the
-          int32(maxBlockHeightExcess) conversion made explicit as wrap32), overall (convertState fold of
-          mapToMerkleRootsConfirmationsResponses), verify (the whole POST /chain/merkleroot/verify answer; the
-          "item dropped when its lookup fails" branch is the explicit [verify_faulty], not taken on a healthy store).
+          (getMerkleRootConfirmation + dto.ToMerkleRootConfirmation; since fix 54e9bff the distance to the tip is
+          computed and compared with the configured excess in int64, which on int32 heights is exact integer
+          arithmetic), overall (convertState fold of mapToMerkleRootsConfirmationsResponses), verify (the whole
+          POST /chain/merkleroot/verify answer; the "item dropped when its lookup fails" branch is the explicit
+          [verify_faulty], not taken on a healthy store).
    State: any store satisfying [Valid] (BHS.ChainMain) - by [reachable_valid] every store reachable by ingestion of
           positive-work headers: any tree shape, stale siblings sharing a height with longest blocks, orphans, reorganisations.
-   int32 h := -2^31 <= h < 2^31 (the request field is an int32).
+   Ranges: request heights are int32 (JSON binding) and the tip height is an int32; under that assumption the model's Z
+          arithmetic is the code's int64 arithmetic.  The theorems themselves hold for every height and EVERY configured
+          excess in Z; a negative excess makes the UNABLE_TO_VERIFY window empty (C02_negative_excess).
 
-   Full statement quantifies over ALL values of the configured excess; for excess >= 2^31 it is FALSE for the code
-   as it is (C02_all_excess_refuted, known finding C02-excess-int32-wrap); the verdict theorems carry 0 <= excess < 2^31
-   (negative values: nothing is UNABLE_TO_VERIFY, which agrees with the statement; not needed for the theorems). *)
+   History: until 54e9bff the code compared in int32 with int32(maxBlockHeightExcess); the statement was refuted for a
+   configured excess >= 2^31 (C02_all_excess_refuted, finding C02-excess-int32-wrap) and three theorems were `_partial`
+   (0 <= excess < 2^31).  The refutation was about code that no longer exists and is gone; the witnesses stay in
+   corpus/C02 and C02_huge_excess_exact states the repaired behaviour on them. *)
 From Coq Require Import ZArith NArith List.
 From BHS Require Import Work Store Chain ChainSpec ChainMain Merkle MerkleProofs.
 Import ListNotations.
@@ -34,17 +38,20 @@ Theorem C02_verdict_confirmed_iff : forall s tipH excess rt h x, Valid s ->
 Proof. exact valid_confirmed_iff. Qed.
 
 (* UNABLE_TO_VERIFY  iff  the height lies above the tip by at most the configured excess *)
-Theorem C02_verdict_unable_iff_partial : forall s tipH excess rt h, Valid s -> tip_height s = Some tipH ->
-  0 <= excess < 2147483648 -> int32 h ->
+Theorem C02_verdict_unable_iff : forall s tipH excess rt h, Valid s -> tip_height s = Some tipH ->
   (verify1 s tipH excess (rt, h) = UnableToVerify <-> tipH < h <= tipH + excess).
 Proof. exact valid_unable_iff. Qed.
 
 (* INVALID otherwise *)
-Theorem C02_invalid_otherwise_partial : forall s tipH excess rt h, Valid s -> tip_height s = Some tipH ->
-  0 <= excess < 2147483648 -> int32 h ->
+Theorem C02_invalid_otherwise : forall s tipH excess rt h, Valid s -> tip_height s = Some tipH ->
   (verify1 s tipH excess (rt, h) = Invalid <->
    ~ (exists r, In r s /\ st r = Longest /\ height r = h /\ root r = rt) /\ ~ (tipH < h <= tipH + excess)).
 Proof. exact valid_invalid_otherwise. Qed.
+
+(* a negative configured excess: nothing is ever UNABLE_TO_VERIFY *)
+Theorem C02_negative_excess : forall s tipH excess rt h, Valid s -> tip_height s = Some tipH ->
+  excess < 0 -> verify1 s tipH excess (rt, h) <> UnableToVerify.
+Proof. exact valid_negative_excess. Qed.
 
 (* a non-empty request is always answered 200 with [answers] = one verdict per item ... *)
 Theorem C02_response : forall s excess items, Valid s -> items <> [] ->
@@ -75,8 +82,7 @@ Theorem C02_tracks_chain : forall f gid gpl hs excess rt h x, gid <> 0%N -> posi
 Proof. exact MerkleProofs.C02_tracks_chain. Qed.
 
 (* all three verdicts at once: the code's verdict is the declarative verdict on the specification's label-free store *)
-Theorem C02_verdict_is_spec_partial : forall f gid gpl hs excess it, gid <> 0%N -> positive_work hs -> nonzero_ids hs ->
-  0 <= excess < 2147483648 -> int32 (snd it) ->
+Theorem C02_verdict_is_spec : forall f gid gpl hs excess it, gid <> 0%N -> positive_work hs -> nonzero_ids hs ->
   let s := run f gid gpl hs in
   let ss := spec_run_from f (init gid gpl) hs in
   exists tipH, tip_height s = Some tipH /\
@@ -98,24 +104,27 @@ Theorem C02_example_reorg :
   verify (run [] 1 ex_gpl ex_post) 6 [(104%N, 2); (9%N, 8)] = VOk OUnable [(104%N, 2, Confirmed 4); (9%N, 8, UnableToVerify)].
 Proof. exact ex_verdicts_follow_reorg. Qed.
 
-(* the statement for EVERY configured excess is refuted: int32(maxBlockHeightExcess) wraps at 2^31 *)
-Theorem C02_all_excess_refuted :
+(* the former witnesses of the int32 wrap (excess 2^31, 2^32+1) and a negative excess, on the repaired code *)
+Theorem C02_huge_excess_exact :
   let s := run [] 1 ex_gpl ex_post in
-  Valid s /\ tip_height s = Some 2 /\ 2 < 3 <= 2 + 2147483648 /\
-  verify1 s 2 2147483648 (9%N, 3) = Invalid /\
-  verify1 s 2 4294967297 (9%N, 4) = Invalid.
-Proof. exact excess_wrap_refuted. Qed.
+  Valid s /\ tip_height s = Some 2 /\
+  verify1 s 2 2147483648 (9%N, 3) = UnableToVerify /\
+  verify1 s 2 2147483648 (9%N, 2147483647) = UnableToVerify /\
+  verify1 s 2 4294967297 (9%N, 4) = UnableToVerify /\
+  verify1 s 2 (-1) (9%N, 3) = Invalid.
+Proof. exact huge_excess_exact. Qed.
 
 Print Assumptions C02_tip_height_is_tip.
 Print Assumptions C02_longest_unique_per_height.
 Print Assumptions C02_verdict_confirmed_iff.
-Print Assumptions C02_verdict_unable_iff_partial.
-Print Assumptions C02_invalid_otherwise_partial.
+Print Assumptions C02_verdict_unable_iff.
+Print Assumptions C02_invalid_otherwise.
+Print Assumptions C02_negative_excess.
 Print Assumptions C02_response.
 Print Assumptions C02_length_and_order.
 Print Assumptions C02_overall_is_max.
 Print Assumptions C02_tracks_chain.
-Print Assumptions C02_verdict_is_spec_partial.
+Print Assumptions C02_verdict_is_spec.
 Print Assumptions C02_example_valid.
 Print Assumptions C02_example_reorg.
-Print Assumptions C02_all_excess_refuted.
+Print Assumptions C02_huge_excess_exact.
